@@ -11,6 +11,10 @@ from ..fold import RegexVal
 from ..srcmodel import walk_local, norm, dotted, guards
 from . import common, families as F
 
+from . import forward
+
+from .c13 import lockdown
+
 META = {
     'explanation': (
         "Language inclusion of the documented Twp/Rge spelling families in the "
@@ -26,7 +30,7 @@ META = {
         "regex is over-approximated, so a reported counterexample is a true "
         "non-member; a pass may miss assertion-only regressions)",
     ],
-    'families': ['RX-LANG', 'TBL', 'DEFUSE', 'GLOBALS'],
+    'families': ['RX-LANG', 'TBL', 'DEFUSE', 'GLOBALS', 'FORWARD', 'DEADPARAM', 'SIB-DEFAULTS'],
 }
 
 
@@ -79,6 +83,10 @@ def check(ctx):
     ctx.attempt(_ocr_table)
     ctx.attempt(_fixed_twprge)
     ctx.attempt(_calltime_defaults)
+    ctx.attempt(forward.check_all, module_suffixes=('plssdesc.plssdesc', 'plssdesc.plss_preprocess', 'trs.trs'))
+    ctx.attempt(lockdown, ctx.repo.func('PLSSDesc.parse'), only=('default_ns', 'default_ew', 'ocr_scrub'))
+    ctx.attempt(lockdown, ctx.repo.func('PLSSDesc.preprocess'), only=('default_ns', 'default_ew', 'ocr_scrub'))
+    ctx.attempt(common.embedded_case_consistency, modules=('rgxlib.twprge',))
 
 
 def _tables(ctx):
